@@ -37,6 +37,57 @@ CLAIMED = {
              "not proved; NaN, ndarray-valued factory defaults and the identity short-cut of container comparison are outside the value model (explicit assumptions).",
         technique="Lean 4 proof over hand-written model + dispatch table regenerated from source + differential correspondence + warm/cold search",
         design="5 (C06)"),
+    "C03": dict(
+        text="Lean model of ExpressionIndicator over the C12 parser model with theorems that every caret position computed from a tree of the caller's description (sub-expressions, "
+             "_parse_op's rewrites, ellipses included) lies inside the description (indicator_pos_in_range, indicator_ellipses_in_range, indicator_never_negative), so error reporting "
+             "cannot raise AssertionError; obligations over the extracted error hierarchy, indicator formulas and the reviewed inventory of front-end assert sites (a re-added assert breaks "
+             "front_sites_reviewed); proved-exhaustive classification of raised exceptions. Search: probes, single-edit corruptions of valid calls that are ill-formed by construction, "
+             "exhaustive <=3/4-token strings and random strings through ten entry points with numpy-call-logging tensors.",
+        note="Trusted: Lean kernel, driver, AST extractor, harness; the rule which ValueError/TypeError count as argument errors (raise statements in einx's argument-validation functions). "
+             "Not proved: stage-2/3 copies of positions, foreign parse trees of shapes/keys, and the elaboration verdict (no full M2 model): clause (b) 'ill-formed => raises before any "
+             "backend computation' is behavioural only.",
+        technique="Lean 4 proof (caret positions, classification) + regenerated source inventory + corruption/exhaustive search",
+        design="5 (C03)"),
+    "C13": dict(
+        text="Lean model of namedtensor_calltensorfactory (call node + isinstance/shape asserts per factory argument, optional keywords by the rule REGENERATED from the AST) with theorems "
+             "factory_node_once / factory_node_count (all argument lists), factory_kwargs_declared_only, factory_asserts_before_use, factory_no_constraints, trace_is_pure, and a checker "
+             "factoryOK on real traced graphs with checker_sound (accepted graph => in every execution that evaluates each reachable node once the factory is invoked exactly once with the "
+             "solved shape and the declared keywords) and checker_guard. Ties: factory_check on pre/post-optimisation graphs, emitted text vs model node list; search: instrumented factories "
+             "(12 signature styles, misbehaving ones, python -O) over cold/warm/graph=True/rejected executions and every subset of positions.",
+        note="Trusted: Lean kernel, driver, extractor anchors (tracing evaluates nothing, graph=True returns before the call), C04's emit_once as the named hypothesis Exec, harness.",
+        technique="Lean 4 proof over model + proved checker on real graphs + invocation-log search",
+        design="5 (C13)"),
+    "C04": dict(
+        text="Byte-exact Lean model of the code generator (usage counting, scopes, per-node rules, fuse/liveness, naming, rendering; switches REGENERATED from the AST of usage.py/"
+             "__init__.py) with theorems emit_order, emit_once, fuse_sound (renaming under the interference condition preserves trace and result), obligations value_computed_once / "
+             "self_contained / unary_operator over the extracted switches, decide'd D6 witness. On every run: model text == real compile() text on captured and synthetic graphs (all node "
+             "kinds, nested graphs); the driver symbolically executes emitted statements and evalGraph per graph and compares trace and result; search: exec of the emitted text on "
+             "instrumented versioned objects vs a memoised node-by-node reference interpreter (results, ordered effects, evaluation counts), graph=True text == exec'd text.",
+        note="Trusted: Lean kernel, driver, extractor, harness/reference interpreter. compile_correct is not a universal theorem: it is checked per compiled graph (valid for all run-time "
+             "values of that graph); that the real fuse loop/visit order always satisfy fuse_safe/closed_order is checked per graph, not proved. Reading of 'computed once': attribute lookups "
+             "on imported modules and builtin names are constant lookups (rendered inline by design), every other node value is computed once.",
+        technique="Lean 4 proof over byte-exact generator model + switches regenerated from source + per-graph translation validation + instrumented execution search",
+        design="5 (C04)"),
+    "C15": dict(
+        text="Lean model of the adapter path (keyword split of op.inner, _expr_to_axis mini-translated from source, expected output shapes, traced node list) with theorems "
+             "kwonly_never_axis and split_partition (all keyword lists/descriptions), expr_to_axis_correct, position_interleave, reduce_axis_semantics IN FULL (under the documented numpy-like "
+             "contract the adapter equals the loop-notation denotation for every flat expression/tensor/assignment), adapt_result_checked, adaptOK_sound for the checker run on real graphs. "
+             "Search: nine instrumented user functions (reduce/elementwise, with/without keyword-only options, misbehaving, python -O) vs the Python loop interpreter, invocation logs, "
+             "option histories (2 / 2.0 / True) against fresh adapters.",
+        note="Trusted: Lean kernel, driver, extractor, harness, the numpy-like contract as hypothesis. adapt_with_vmap cannot run here (no framework with vmap installed) and is neither "
+             "exercised nor modelled. reduce_axis_semantics is at the decomposed (flat) level; parentheses/permutation/keepdims go through C01's lowering and are covered behaviourally.",
+        technique="Lean 4 proof over hand-written model + kernel translated from source + proved checker on real graphs + instrumented-function search",
+        design="5 (C15)"),
+    "C16": dict(
+        text="Lean models of every order-sensitive set-consumption site with the enumeration order as an explicit adversarial argument: join_exprs_order_invariant, reorder_add_sub_invariant "
+             "(full), reorder_set_invariant_partial + decide'd witness, implicit_output_order_invariant (over the extracted len==1 guard), cse_filters_order_invariant, "
+             "cse_order_invariant_partial + witness, keepMax_perm / registry_outcome_perm, fresh_name_invariant; obligation that EVERY set-consumption and random-draw site found by the AST "
+             "scan of the call path is classified (order-safe, message-only, guarded pop, or modelled) - a new site breaks it. Search: a fixed corpus (directed cases at every site + "
+             "generated calls + failing calls) run in sub-processes under several PYTHONHASHSEED values and a different uuid stream; digests must agree; graph=True twice per process.",
+        note="Trusted: Lean kernel, driver, the AST scan with intra-function set typing, harness. sympy-internal ordering and float summation order are not modelled (corpus samples them); "
+             "set_at with duplicate addresses and overlapping CSE candidates are order sensitive in the model (witnesses) and rely on the fixed code choosing deterministically.",
+        technique="Lean 4 proof with explicit enumeration-order parameter + source inventory obligation + multi-hash-seed corpus search",
+        design="5 (C16)"),
     "C05": dict(
         text="Lean theorems about the same plan functions the validator executes, for all ranks/shapes/permutations/element algebras: transpose_transpose over the permutation-composition "
              "kernel TRANSLATED from optimizer/classical.py on every run (composePerm_spec by rfl breaks if the order is reversed), transpose_id, reshape_same, reshape_reshape, broadcast_same, "
